@@ -592,17 +592,17 @@ Definition eval_body (self : evs) (n : node) (c : N) : M result :=
              aid <- ev_new_array self (tval id) dty dims c ;;
              add_arr c (tval id) aid) ids ;;; ret res_none
   | NEnumDef t name vals =>
-    ist <- is_identifier_type c name false ;;
+    ist <- is_identifier_type c name true ;;
     if ist then rt_error t c
     else upd_ctx c (fun k => ctx_with_enums (x_enums k ++ [(tval name, vals)]) k) ;;; ret res_none
   | NPtrDef t name ty =>
     pty <- get_type c ty true ;;
     if dt_is pty KNone then not_defined_error t c else
-    ist <- is_identifier_type c name false ;;
+    ist <- is_identifier_type c name true ;;
     if ist then rt_error t c
     else upd_ctx c (fun k => ctx_with_ptrs (x_ptrs k ++ [(tval name, pty)]) k) ;;; ret res_none
   | NCompDef t name body =>
-    ist <- is_identifier_type c name false ;;
+    ist <- is_identifier_type c name true ;;
     if ist then rt_error t c
     else upd_ctx c (fun k => ctx_with_comps (x_comps k ++ [(tval name, body)]) k) ;;; ret res_none
   | NIf t comps =>
@@ -744,8 +744,17 @@ Definition eval_body (self : evs) (n : node) (c : N) : M result :=
         match dk (r_type dr) with
         | KNone | KEnum | KPtr | KRec => rt_error t c
         | _ => p <- as_payload dr ;; s <- prim_to_string p ;;
-               modify (fun st0 => set_fs (fs_set name (match fs_get name (s_fs st0) with Some old => old | None => [] end ++ s ++ [ch_nl]) (s_fs st0)) st0) ;;;
-               ret res_none
+               (* the value may have been computed by a function that closed or reopened the file: looked up again *)
+               fl2 <- gets s_files ;;
+               match find_file name fl2 with
+               | None => rt_error t c
+               | Some fh2 =>
+                 match of_mode fh2 with
+                 | FRead | FRandom => rt_error t c
+                 | _ => modify (fun st0 => set_fs (fs_set name (match fs_get name (s_fs st0) with Some old => old | None => [] end ++ s ++ [ch_nl]) (s_fs st0)) st0) ;;;
+                        ret res_none
+                 end
+               end
         end
       end
     end
